@@ -78,6 +78,8 @@ module Z :
 
   val compare : z -> z -> comparison
 
+  val leb : z -> z -> bool
+
   val eqb : z -> z -> bool
 
   val max : z -> z -> z
@@ -93,6 +95,8 @@ val flat_map : ('a1 -> 'a2 list) -> 'a1 list -> 'a2 list
 
 val fold_left : ('a1 -> 'a2 -> 'a1) -> 'a2 list -> 'a1 -> 'a1
 
+val fold_right : ('a2 -> 'a1 -> 'a1) -> 'a1 -> 'a2 list -> 'a1
+
 val existsb : ('a1 -> bool) -> 'a1 list -> bool
 
 val filter : ('a1 -> bool) -> 'a1 list -> 'a1 list
@@ -104,6 +108,16 @@ val seq : nat -> nat -> nat list
 val repeat : 'a1 -> nat -> 'a1 list
 
 val upd : nat -> 'a1 -> 'a1 list -> 'a1 list
+
+val c11_container_dunder_copy_is_copy : bool
+
+val c11_container_dunder_deepcopy_returns_self_copy : bool
+
+val c11_linker_dunder_copy_is_copy : bool
+
+val c11_linker_dunder_deepcopy_returns_self_copy : bool
+
+val c11_no_other_copy_entry_points : bool
 
 type loc = nat
 
@@ -135,6 +149,18 @@ val scal : z list -> val0 list
 
 val mem_nat : nat -> nat list -> bool
 
+val insert_cell : (z * val0) -> (z * val0) list -> (z * val0) list
+
+val sort_cells : (z * val0) list -> (z * val0) list
+
+val norm_cells : kind -> (z * val0) list -> (z * val0) list
+
+val kEY_ATTRIBUTES : z
+
+val scalar_of : val0 -> z
+
+val sorted_values : (z * val0) list -> (z * val0) list
+
 val dfs :
   nat -> heap -> (loc * z list) list -> (loc * z list) list -> (loc * z list)
   list
@@ -151,6 +177,8 @@ type ctree =
 | CS of z
 | CO of (z * z) * (z * ctree) list
 | CCut
+
+val cview_ : nat -> heap -> bool -> val0 -> ctree
 
 val cview : nat -> heap -> val0 -> ctree
 
@@ -277,6 +305,8 @@ val f_TRACER : z
 
 val tAG_TRACE : z
 
+val tAG_SET : z
+
 val a : z -> z
 
 val v : z -> z
@@ -396,6 +426,8 @@ type op =
 | OSubStatus of z * z * z * z
 | OPathAppend of path * z
 | OAliasAttr of z * path
+| OSetAttrNested of z * z list list
+| OSetAttrSet of z * z list
 | OReplaceSeries of z * z list
 
 val is_empty_trace : heap -> loc -> z -> bool
@@ -439,7 +471,27 @@ val solve_ops :
 val linker_solve_ops :
   z -> (z * (z * z) list) list -> nat -> z -> z -> op list
 
+type route =
+| RCopy
+| RCopyCopy
+| RDeepCopy
+
+val shallow_copy : heap -> loc -> (heap * loc) option
+
+val generic_deepcopy : heap -> loc -> (heap * loc) option
+
+val is_linker : heap -> loc -> bool
+
+val the_copy : consts -> heap -> loc -> (heap * loc) option
+
+val copy_by_route :
+  bool -> bool -> bool -> route -> consts -> heap -> loc -> (heap * loc)
+  option
+
+val copy_route : route -> consts -> heap -> loc -> (heap * loc) option
+
 type hevent =
+| HCopyRoute of route * nat
 | HOps of nat * op list
 | HEv of event
 | HCopySeries of nat * nat * z * z
